@@ -187,6 +187,8 @@ func Go(site string, fn func()) {
 	t := newTaskLocked(site)
 	mu.Unlock()
 	launch(t, fn)
+	// the creator may be a goroutine the simulator does not schedule (gocron's executor): tell the decision loop
+	kickNB()
 }
 
 func launch(t *Task, fn func()) {
@@ -237,7 +239,7 @@ func Park(site string) {
 		choicePos++
 		var b [24]byte
 		putU64(b[0:], n)
-		putU64(b[8:], uint64(t.id))
+		putU64(b[8:], fpID(t))
 		putU64(b[16:], strHash(site))
 		fp.Write(b[:])
 		if traceOn {
@@ -469,6 +471,12 @@ func Run(main func()) {
 			<-kick
 			continue
 		}
+		// Goroutines of third-party pools (fasthttp workers) are adopted in an order the pool decides (it may
+		// reuse a worker or start a new one): their position among the candidates must not depend on when they
+		// were adopted, so they always come first.
+		sort.SliceStable(runnable, func(i, j int) bool {
+			return strings.HasPrefix(runnable[i].name, "adopted#") && !strings.HasPrefix(runnable[j].name, "adopted#")
+		})
 		t := pickLocked(runnable)
 		if t != cur {
 			switches++
@@ -478,7 +486,7 @@ func Run(main func()) {
 		n := seq.Add(1)
 		var b [24]byte
 		putU64(b[0:], n)
-		putU64(b[8:], uint64(t.id))
+		putU64(b[8:], fpID(t))
 		putU64(b[16:], strHash(t.site))
 		fp.Write(b[:])
 		if traceOn {
@@ -591,7 +599,9 @@ func Procs() int {
 	if v := procsKnob.Load(); v > 0 {
 		return int(v)
 	}
-	return runtime.GOMAXPROCS(0)
+	// no knob (or package initialisation, before the plan is read): a constant, never the real GOMAXPROCS of
+	// the child process, so that an execution does not depend on how many threads the simulator was given
+	return 2
 }
 
 // ---- deterministic map iteration -------------------------------------------------------------
@@ -694,4 +704,14 @@ func RunReinits() {
 	for _, f := range reinits {
 		f()
 	}
+}
+
+// fpID: the identity hashed into the fingerprint. Goroutines of third-party pools (fasthttp workers) are adopted
+// when they first enter repo code; which pool goroutine serves a connection is the pool's business and varies
+// between executions without any effect on the node, so they all hash as one identity.
+func fpID(t *Task) uint64 {
+	if strings.HasPrefix(t.name, "adopted#") {
+		return 1 << 40
+	}
+	return uint64(t.id)
 }
